@@ -1,6 +1,6 @@
 (* Property C19: every individual is evaluated when due and counted once per evaluation. *)
 From Coq Require Import List Bool Arith.
-From Bingo Require Import Model.EvalPhase Proofs.EvalPhaseProofs Proofs.EvalPartialProofs.
+From Bingo Require Import Model.EvalPhase Gen.EvalRules Proofs.EvalPhaseProofs Proofs.EvalPartialProofs Proofs.EvalRulesProofs.
 Import ListNotations.
 
 Section C19.
@@ -78,6 +78,14 @@ Proof.
 Qed.
 End C19p.
 Print Assumptions C19_phase_that_returns_left_nobody_unevaluated.
+
+(* 5. the tie by translation: the model's 'due' test IS the test both evaluation loops of the current source state, and the
+      statement sequence of the counter-delta protocol is the pinned one (Gen/EvalRules.v is regenerated from
+      bingo/evaluation/evaluation.py and the fitness setter of bingo/chromosomes/chromosome.py on every run) *)
+Theorem C19_model_due_test_is_the_source_test :
+  (forall (G F : Type) red (i : indiv G F), due G F red i = gen_due red (fit_set G F i)) /\ gen_protocol_pinned = true.
+Proof. split; [exact due_is_source|exact protocol_is_pinned]. Qed.
+Print Assumptions C19_model_due_test_is_the_source_test.
 
 Example C19_example :
   let pop := [mkIndiv nat nat 0 5 None false; mkIndiv nat nat 1 7 (Some 70) true; mkIndiv nat nat 2 9 None false] in
